@@ -121,7 +121,7 @@ NODE_COMPONENTS = [
 ]
 NODE_ASSUMPTIONS = COMMON_ASSUMPTIONS + [
     "InterfaceError values are compared by debug image (the type has no PartialEq)",
-    "handlers transmit only to other devices from inside a delivery (as C15 states), except: in the C16 check one handler may continue an own-address send (nested sends, the running handler may be re-entered, skipped or deferred), in the C17 check up to two handlers register further handlers from inside a dedicated delivery (only ids and the registry state afterwards are judged), in the C18 check one handler may perform an exchange of its own; handler invocation order within one delivery is not constrained",
+    "handlers transmit only to other devices from inside a delivery (as C15 states), except: in the C16 check one handler may continue an own-address send (nested sends, the running handler may be re-entered, skipped or deferred), in the C18 check one handler may perform an exchange of its own; handler invocation order within one delivery is not constrained",
     "attribution: when an expected handler does not fire, the registry itself is asked (remove of its id) to decide between a dispatch defect (C15/C16) and a registry defect (C17)",
 ]
 
@@ -147,7 +147,7 @@ PROPS["C16"] = dict(PROPS["C15"], **{
 PROPS["C17"] = dict(PROPS["C15"], **{
     "crash_clause": "C17.unique",
     "rule": "registry-heavy histories (40-80% add/remove: remove from the middle, id reuse, removal of stale and never-issued ids) interleaved with deliveries; after every registry operation a reveal step sends one own-address packet through tick and one through the loop-back path of send_packet and determines which handlers are live; removed handlers must never fire again on any delivery; at the end every id ever seen is removed once more and must answer Ok / NoSuchHandler as the model says. Non-trivial = a handler was removed, an unregistered id was removed, or an id was reused. Distinct = distinct event-log hashes among those.",
-    "probes": ["handler_removed", "remove_of_unregistered_id", "id_reused_after_removal", "id_reuse_with_neighbours", "reveal_steps", "handler_registered_by_a_handler", "large_handler_table"],
+    "probes": ["handler_removed", "remove_of_unregistered_id", "id_reused_after_removal", "id_reuse_with_neighbours", "reveal_steps", "large_handler_table", "burst_of_16_or_more_removals_without_delivery"],
 })
 PROPS["C18"] = {
     "scenario": "S-NODE(exchange)",
